@@ -90,6 +90,7 @@ class C16(Prop):
         nv = rng.choice([1, 2, 2, 3])
         c = lang.GenCfg(vars=list(lang.VAR_POOL[:nv]), max_depth=rng.choice([1, 2, 3, 3, 4]),
                         unbounded_future=False, unless=True, max_bound=rng.choice([2, 4, 6]))
+        c.wide = 0.04          # a few windows of 64..200 samples
         if rng.random() < 0.25:
             c.untyped = 0.2
         f = lang.gen_formula(rng, c)
